@@ -26,6 +26,8 @@ pub enum Mut {
     ScalarZero(SPos),
     ScalarNeg(SPos),
     ScalarCopy(SPos, SPos),
+    /// the same value mod l written non-canonically (s + l as a 256-bit integer)
+    ScalarPlusL(SPos),
     PointIdentity(PPos),
     PointUndecodable(PPos),
     PointPlusH(PPos),
@@ -111,6 +113,7 @@ pub fn menu(p: &RefProof, reduced: bool) -> Vec<Mut> {
         out.push(Mut::ScalarAdd1(s.clone()));
         out.push(Mut::ScalarZero(s.clone()));
         out.push(Mut::ScalarNeg(s.clone()));
+        out.push(Mut::ScalarPlusL(s.clone()));
         // value of another scalar of the proof
         let other = sp.iter().find(|o| *o != s && sget(p, o) != sget(p, s));
         if let Some(o) = other {
@@ -167,6 +170,33 @@ pub fn apply<P: G>(p: &RefProof, m: &Mut, h: &P) -> Option<Vec<u8>> {
         Mut::ScalarCopy(s, from) => {
             let v = sget(&q, from);
             sset(&mut q, s, v)
+        },
+        Mut::ScalarPlusL(s) => {
+            // rewrite the 32 bytes of that scalar in the encoded proof as s + l (same residue, other bytes)
+            const ELL: [u8; 32] = [
+                0xed, 0xd3, 0xf5, 0x5c, 0x1a, 0x63, 0x12, 0x58, 0xd6, 0x9c, 0xf7, 0xa2, 0xde, 0xf9, 0xde, 0x14, 0, 0, 0, 0, 0, 0, 0, 0, 0,
+                0, 0, 0, 0, 0, 0, 0x10,
+            ];
+            let v = sget(&q, s).to_bytes();
+            let mut out = [0u8; 32];
+            let mut carry = 0u16;
+            for i in 0..32 {
+                let t = v[i] as u16 + ELL[i] as u16 + carry;
+                out[i] = (t & 0xff) as u8;
+                carry = t >> 8;
+            }
+            if carry != 0 {
+                return None;
+            }
+            let mut b = crate::refbp::ref_encode(&q);
+            let d = q.d1.len();
+            let element = match s {
+                SPos::D1(k) => *k,
+                SPos::R1 => d + 3,
+                SPos::S1 => d + 4,
+            };
+            b[1 + 32 * element..1 + 32 * element + 32].copy_from_slice(&out);
+            return Some(b);
         },
         Mut::PointIdentity(pos) => pset(&mut q, pos, [0u8; 32]),
         Mut::PointUndecodable(pos) => pset(&mut q, pos, UNDECODABLE),
